@@ -21,11 +21,13 @@ mod ops_cli;
 mod ops_anchors;
 mod ops_arena;
 mod ops_det;
+mod ops_c04;
 
 pub const COMPONENTS: &[fn(&str, &[String]) -> Option<String>] = &[
     ops_anchors::dispatch,
     ops_arena::dispatch,
     ops_det::dispatch,
+    ops_c04::dispatch,
     ops_cli::dispatch,
 ];
 
